@@ -21,6 +21,10 @@ VI_ITEMS = {
     "reg": [b'"ayw', b'"ap', b"yw", b"p", b"P"], "undo": [b"u"], "utf8": ["ié\x1bl".encode(), "a中\x1bh".encode()], "arrow": [b"\x1b[D", b"\x1b[C"],
     "uarg": ["r中".encode(), "ré".encode(), "f中".encode(), "té".encode(), "i中é\x1b0f中".encode()],
 }
+# keys whose own sequence has the form of a cursor position report (Shift-F3, Ctrl-F3 on xterm): ordinary keys as long as
+# nobody waits for a report (scripts with them are only run under chunkings, not with a report outstanding: then the
+# terminal protocol itself cannot tell them apart)
+EMACS_ITEMS["fkey"] = [b"\x1b[1;2R", b"\x1b[1;5R", b"\x1b[1;2Rx", b"a\x1b[1;5Rb"]
 # keyboard macros recorded and replayed inside the script (the recorder looks at the key stack between reads)
 EMACS_ITEMS["rec"] = [b"\x18(" + a + b + b"\x18)" + c + b"\x18e" for a in (b"\x1bb", b"\x1b[D", b"\x18\x18", b"\x1bd", b"\x11x", b"\x1b2a") for b in (b"X", b"", b"\x1bf")
                       for c in (b"", b"\x05")]
@@ -108,6 +112,8 @@ def run(rep, tier, seed):
             meta[cid] = {"sid": si, "mode": mode, "bytes": bs.hex(), "cuts": cuts, "offs": offs, "kind": "chunks"}
         # bytes after position i arrive in the same read as a cursor position report
         poss = [i for i in range(0, len(bs)) if i == 0 or splits_ok(bs, [i], vi)]
+        if b"R" in bs and __import__("re").search(rb"\x1b\[\d+;\d+R", bs):
+            poss = []
         if len(poss) > (3 if tier == "quick" else 12):
             poss = rng.sample(poss, 3 if tier == "quick" else 12)
         for i in poss:
